@@ -290,12 +290,25 @@ def run(tier):
                 return ("exitValueZero", n["op"] == "!=")
         return None
 
+    # functions of ProcessManager whose body takes processesAccess (synchronise with the SIGCHLD handler)
+    lockers = set()
+    for g_ in funcs:
+        if "processesAccess" in set(guard_decls(g_).values()):
+            lockers.add(g_.qname)
+    unsync = []
+
     def el5(st, b, i, e):
         facts, waited = st
         if "s" in e:
             n = f.stmts[e["s"]]
             if n["k"] == "CXXMemberCallExpr" and (n.get("callee") or "") == PM + "::wait":
-                waited = True
+                waited = "waited"
+            elif n["k"] == "CXXMemberCallExpr" and (n.get("callee") or "") in lockers and waited:
+                waited = "synced"
+            elif n["k"] == "DeclStmt" and any(d.get("cls") in GUARDS for d in n["decls"]) and waited:
+                waited = "synced"
+            if n["k"] == "MemberExpr" and n.get("member") in ("exitStatus", "exitValue") and waited != "synced":
+                unsync.append((e["s"], waited))
         return ((facts, waited),)
 
     def ed5(st, b, succ, pol):
@@ -308,6 +321,16 @@ def run(tier):
     exits = IN.get(f.exit, set())
     if not exits:
         raise AnalysisBroken("execute has no normal exit")
+    if unsync:
+        sid_, w_ = unsync[0]
+        rep.fail("STATUS-READ-UNSYNCHRONISED@" + PM + "::execute",
+                 "%s: the exit status is read %s: when the SIGCHLD handler reaps the child in another thread, wait() returns on "
+                 "ECHILD and only a later acquisition of processesAccess (held by the handler until the status is recorded) "
+                 "orders this read after the handler's write" % (rel(f.short_loc(sid_)),
+                 "before wait(pid)" if not w_ else "after wait(pid) but with no acquisition of processesAccess in between"))
+    else:
+        rep.ok("execute reads exitStatus/exitValue only after wait(pid) followed by an acquisition of processesAccess (%s)"
+               % ", ".join(sorted(x.rsplit("::", 1)[-1] for x in lockers)))
     for facts, waited in exits:
         fx = dict(facts)
         rep.count("normal exits of execute")
